@@ -55,7 +55,7 @@ VARIABLES
   readyq,     \* Worker._ready_task_ids: sequence of <<addr, "start" | "wake">> (the tag is history)
   cancelled,  \* Worker._cancelled_task_ids
   mboxes,     \* keys of Worker._mailboxes
-  box,        \* id -> [expected, num, dest, fresh]     (id \in mboxes)
+  box,        \* id -> [expected, num, dest, fresh, late]     (id \in mboxes; late is history: created by a task after it was cancelled)
   ctr,        \* Worker._mailbox_counter
   receipt,    \* Worker.most_recent_read_submit
   rrHolder,   \* read_receipt_mutex: "none" | "main" | "inc"
@@ -87,7 +87,7 @@ Desc(fn, addr, crumbs) == [fn |-> fn, addr |-> addr, crumbs |-> crumbs]
 NoDesc == Desc("", None, <<>>)
 NoMsg == [t |-> "", addr |-> None, ts |-> <<>>]
 NewObj(d) == [fn |-> d.fn, crumbs |-> d.crumbs, ipc |-> 1, env |-> <<>>, desired |-> NoBox, won |-> FALSE, owned |-> {}, closed |-> FALSE]
-NewBox(n) == [expected |-> n, num |-> 0, dest |-> None, fresh |-> {}]
+NewBox(n, late) == [expected |-> n, num |-> 0, dest |-> None, fresh |-> {}, late |-> late]
 BoxReady(b) == b.num >= b.expected /\ b.num # 0                       \* WorkerMailbox.ready
 Descends(a, crumbs, x) == a = x \/ x \in Range(crumbs)                 \* RuntimeTask.is_descendant_of
 InTasks(a) == a \in Range(tasks)
@@ -128,8 +128,9 @@ Proj == [mpc |-> m'.pc, ipc |-> i'.pc,
          sent |-> h'.sent, msg |-> i'.msg]
 Act(name, th) == hist' = IF Record THEN Append(hist, [a |-> name, th |-> th, p |-> Proj]) ELSE hist
 
-\* leaving the task that main holds: the object is garbage once _tasks does not reference it either
-Reap(tb, tk, a) == IF a # None /\ a \in DOMAIN tb /\ a \notin Range(tk) THEN Del(tb, a) ELSE tb
+\* leaving the task that main holds: the object is garbage once neither _tasks nor the snapshot a running
+\* _handle_cancel iterates over references it
+Reap(tb, tk, a) == IF a # None /\ a \in DOMAIN tb /\ a \notin Range(tk) /\ a \notin Range(i.list) THEN Del(tb, a) ELSE tb
 
 \* ================================================================== main thread
 \* `if self._ready_task_ids.empty() and len(self._delayed_tasks) > 0:`  (one line: one atomic read of both)
@@ -285,7 +286,7 @@ M_submit ==
          child == Desc(ins[3], <<Wid, id, 0>>, Append(o.crumbs, m.task))
          o2 == [o EXCEPT !.ipc = @ + 1, !.env = Put(@, ins[2], id), !.owned = @ \cup {id}]
      IN /\ tobj' = [tobj EXCEPT ![m.task] = o2]
-        /\ box' = Put(box, id, NewBox(1)) /\ mboxes' = mboxes \cup {id} /\ ctr' = ctr + 1
+        /\ box' = Put(box, id, NewBox(1, ~InTasks(m.task))) /\ mboxes' = mboxes \cup {id} /\ ctr' = ctr + 1
         /\ pool' = pool \cup {[k |-> "S", ts |-> <<child>>]}
         /\ m' = [m EXCEPT !.pc = InsPc(o2)]
   /\ h' = [h EXCEPT !.sent = Sent("SUBMIT", 1)]
@@ -299,7 +300,7 @@ M_map ==
          kids == [j \in 1..ins[4] |-> Desc(ins[3], <<Wid, id, j - 1>>, Append(o.crumbs, m.task))]
          o2 == [o EXCEPT !.ipc = @ + 1, !.env = Put(@, ins[2], id), !.owned = @ \cup {id}]
      IN /\ tobj' = [tobj EXCEPT ![m.task] = o2]
-        /\ box' = Put(box, id, NewBox(ins[4])) /\ mboxes' = mboxes \cup {id} /\ ctr' = ctr + 1
+        /\ box' = Put(box, id, NewBox(ins[4], ~InTasks(m.task))) /\ mboxes' = mboxes \cup {id} /\ ctr' = ctr + 1
         /\ pool' = pool \cup {[k |-> "B", ts |-> kids]}
         /\ m' = [m EXCEPT !.pc = InsPc(o2)]
   /\ h' = [h EXCEPT !.sent = Sent("SUBMIT_BATCH", 1)]
@@ -389,15 +390,14 @@ M_complCheck ==
   /\ UNCHANGED <<tasks, delayed, readyq, cancelled, mboxes, box, ctr, receipt, rrHolder, mbHolder, i, pool, remote, echo, cseen, rootc, alive>>
   /\ Act("M_complCheck", "main")
 
-\* `self._conn.send((UPDATE, -1))` (local child only); `self._tasks.pop(...)`; `for mailbox_id in list(owned_mailboxes):`
+\* `self._tasks.pop(...)`; `for mailbox_id in list(owned_mailboxes):`
 M_complPop ==
   /\ alive /\ m.pc = "complPop"
   /\ LET lst == SortedSeq(tobj[m.task].owned) IN
      /\ tasks' = Without(tasks, m.task)
-     /\ h' = IF m.task[1] = Wid THEN [h EXCEPT !.sent = Sent("UPDATE", 1)] ELSE h
      /\ IF lst = <<>> THEN tobj' = Reap(tobj, tasks', m.task) /\ m' = IdleM
         ELSE tobj' = tobj /\ m' = [m EXCEPT !.pc = "complLoop", !.list = lst]
-  /\ UNCHANGED <<delayed, readyq, cancelled, mboxes, box, ctr, receipt, rrHolder, mbHolder, i, hr, envv>>
+  /\ UNCHANGED <<delayed, readyq, cancelled, mboxes, box, ctr, receipt, rrHolder, mbHolder, i, hr, envv, h>>
   /\ Act("M_complPop", "main")
 
 \* one round of the loop over the finished task's mailboxes: a complete one is dropped, any other is cancelled
@@ -426,7 +426,9 @@ M_complLoop ==
 PC(th) == IF th = "main" THEN m.pc ELSE i.pc
 SetPc(th, v) == /\ m' = IF th = "main" THEN [m EXCEPT !.pc = v] ELSE m
                 /\ i' = IF th = "inc" THEN (IF v = "recv" THEN IdleI ELSE [i EXCEPT !.pc = v]) ELSE i
-HrReturn(th) == /\ SetPc(th, hr[th].ret) /\ hr' = [hr EXCEPT ![th] = IdleHr] /\ mbHolder' = Release(th, mbHolder)
+\* back in _process_task_completion the main thread sends UPDATE before the next anchor; nobody else can tell
+HrReturn(th, hh) == /\ SetPc(th, hr[th].ret) /\ hr' = [hr EXCEPT ![th] = IdleHr] /\ mbHolder' = Release(th, mbHolder)
+                    /\ h' = IF th = "main" THEN [hh EXCEPT !.sent = [hh.sent EXCEPT !["UPDATE"] = @ + 1]] ELSE hh
 
 \* `with self.mailbox_mutex:` in _handle_result
 HR_lock(th) ==
@@ -440,10 +442,10 @@ HR_lock(th) ==
 HR_deposit(th) ==
   /\ alive /\ PC(th) = "hrDeposit"
   /\ LET id == hr[th].id IN
-     IF id \notin mboxes THEN HrReturn(th) /\ box' = box
+     IF id \notin mboxes THEN HrReturn(th, h) /\ box' = box
      ELSE /\ box' = [box EXCEPT ![id].num = @ + 1, ![id].fresh = @ \cup {hr[th].slot}]
-          /\ SetPc(th, "hrCheck") /\ UNCHANGED <<hr, mbHolder>>
-  /\ UNCHANGED <<tasks, tobj, delayed, readyq, cancelled, mboxes, ctr, receipt, rrHolder, envv, h>>
+          /\ SetPc(th, "hrCheck") /\ UNCHANGED <<hr, mbHolder, h>>
+  /\ UNCHANGED <<tasks, tobj, delayed, readyq, cancelled, mboxes, ctr, receipt, rrHolder, envv>>
   /\ Act("HR_deposit", th)
 
 \* `if box.has_task_waiting:` ... `task_or_none = self._tasks.get(box.dest_addr)` ... `if task.wake_on_next or box.ready:`
@@ -452,9 +454,9 @@ HR_check(th) ==
   /\ alive /\ PC(th) = "hrCheck"
   /\ LET id == hr[th].id IN
      IF id \in mboxes /\ box[id].dest # None /\ InTasks(box[id].dest) /\ (tobj[box[id].dest].won \/ BoxReady(box[id]))
-     THEN SetPc(th, "hrWake") /\ UNCHANGED <<hr, mbHolder>>
-     ELSE HrReturn(th)
-  /\ UNCHANGED <<tasks, tobj, delayed, readyq, cancelled, mboxes, box, ctr, receipt, rrHolder, envv, h>>
+     THEN SetPc(th, "hrWake") /\ UNCHANGED <<hr, mbHolder, h>>
+     ELSE HrReturn(th, h)
+  /\ UNCHANGED <<tasks, tobj, delayed, readyq, cancelled, mboxes, box, ctr, receipt, rrHolder, envv>>
   /\ Act("HR_check", th)
 
 \* `dest_addr = box.dest_addr; box.dest_addr = None; self._ready_task_ids.put(dest_addr)`
@@ -462,19 +464,19 @@ HR_check(th) ==
 HR_wake(th) ==
   /\ alive /\ PC(th) = "hrWake"
   /\ LET id == hr[th].id IN
-     IF id \notin mboxes \/ box[id].dest = None THEN HrReturn(th) /\ UNCHANGED <<box, readyq, h>>
-     ELSE /\ readyq' = Append(readyq, <<box[id].dest, "wake">>)
-          /\ h' = [h EXCEPT !.wakes = Bump(@, box[id].dest)]
-          /\ IF RegisterIfNotReady THEN box' = [box EXCEPT ![id].dest = None] /\ HrReturn(th)
-             ELSE box' = box /\ SetPc(th, "hrClear") /\ UNCHANGED <<hr, mbHolder>>
+     IF id \notin mboxes \/ box[id].dest = None THEN HrReturn(th, h) /\ UNCHANGED <<box, readyq>>
+     ELSE LET woke == [h EXCEPT !.wakes = Bump(@, box[id].dest)] IN
+          /\ readyq' = Append(readyq, <<box[id].dest, "wake">>)
+          /\ IF RegisterIfNotReady THEN box' = [box EXCEPT ![id].dest = None] /\ HrReturn(th, woke)
+             ELSE box' = box /\ SetPc(th, "hrClear") /\ h' = woke /\ UNCHANGED <<hr, mbHolder>>
   /\ UNCHANGED <<tasks, tobj, delayed, cancelled, mboxes, ctr, receipt, rrHolder, envv>>
   /\ Act("HR_wake", th)
 
 HR_clear(th) ==
   /\ alive /\ PC(th) = "hrClear"
   /\ box' = IF hr[th].id \in mboxes THEN [box EXCEPT ![hr[th].id].dest = None] ELSE box
-  /\ HrReturn(th)
-  /\ UNCHANGED <<tasks, tobj, delayed, readyq, cancelled, mboxes, ctr, receipt, rrHolder, envv, h>>
+  /\ HrReturn(th, h)
+  /\ UNCHANGED <<tasks, tobj, delayed, readyq, cancelled, mboxes, ctr, receipt, rrHolder, envv>>
   /\ Act("HR_clear", th)
 
 \* ================================================================== incoming thread (+ the environment's deliveries)
@@ -600,7 +602,8 @@ I_hcAdd ==
   /\ Act("I_hcAdd", "inc")
 
 \* one descendant: `task.cancel()` (closes the coroutine unless it is executing right now); drop its mailboxes; forget it.
-\* The main thread may still hold the object (it looked it up, or is running it): then it lives on, closed.
+\* The main thread may still hold the object (it looked it up, or is running it): then it lives on, closed.  The snapshot
+\* holds the object, so this also happens to a task the main thread has dropped from _tasks in the meantime.
 I_hcTask ==
   /\ alive /\ i.pc = "hcTask"
   /\ LET a == Head(i.list) rest == Tail(i.list) IN
@@ -696,7 +699,12 @@ WaitingOK == m.pc = "sendWaiting" =>
 RunAtMostOnce == \A a \in DOMAIN h.runs : h.runs[a] <= 1
 NoStartAfterCancel == h.mustDiscard => m.pc \in {"lookup", "checkCancelled", "checkCrumbs"}
 \* (5) nothing is left when everything is over
-NoResidue == Quiescent => tasks = <<>> /\ mboxes = {} /\ delayed = <<>> /\ DOMAIN tobj = {}
+\* ... except - a defect of the current code, see NoLateBox - mailboxes that a task created after it was cancelled while running
+NoResidue == Quiescent => tasks = <<>> /\ delayed = <<>> /\ DOMAIN tobj = {} /\ \A id \in mboxes : box[id].late
+\* KNOWN TO FAIL on the current code whenever a CANCEL is handled while a task it cancels is executing: the task is dropped
+\* from _tasks and its mailboxes are removed, but its body runs on to its next await and the mailboxes it creates on the way
+\* (and the one it parks on) are never removed
+NoLateBox == \A id \in mboxes : ~box[id].late
 \* no error reaches the client that no task body raised (the programs raise nothing)
 NoErr == h.errs = {}
 OrphanHasNoWaiter == ~h.orphanWaiter
@@ -704,6 +712,6 @@ LockDiscipline == /\ (rrHolder = "main") = (m.pc \in {"getNowait", "sendWaiting"
                   /\ (rrHolder = "inc") = (i.pc \in {"subBody", "batBody1", "batBody2"})
                   /\ MailboxLocked => /\ (mbHolder = "main") = (m.pc \in {"gdrBody", "paCheck", "paReady", "paAct", "hrDeposit", "hrCheck", "hrWake", "hrClear"})
                                       /\ (mbHolder = "inc") = (i.pc \in {"hrDeposit", "hrCheck", "hrWake", "hrClear"})
-\* simulation mode: print every behaviour that reaches the end
-Dump == IF Record /\ ~alive THEN PrintT(<<"BEHAVIOUR", ToJson(hist)>>) ELSE TRUE
+\* simulation mode: print every behaviour that reaches the end (or, with a fix switched off, hangs)
+Dump == IF Record /\ (~alive \/ (Quiescent /\ ~Answered)) THEN PrintT(<<"BEHAVIOUR", ToJson(hist)>>) ELSE TRUE
 =============================================================================
